@@ -291,6 +291,78 @@ private:
     Events *ev_;
 };
 
+
+// ------------------------------------------------------------------------------------------ scripted samplers (rrtplay)
+struct DrawScript
+{
+    std::vector<std::vector<double>> samples;   // one per iteration (the goal state for a `G` draw)
+    std::vector<std::vector<double>> controls;  // in call order
+    std::vector<unsigned> counts;               // in call order
+    size_t si = 0, ci = 0, ki = 0;
+    bool exhausted = false;
+};
+
+class ScriptStateSampler : public ob::StateSampler
+{
+public:
+    ScriptStateSampler(const ob::StateSpace *sp, DrawScript *d) : ob::StateSampler(sp), d_(d)
+    {
+    }
+    void sampleUniform(ob::State *s) override
+    {
+        if (d_->si >= d_->samples.size())
+        {
+            d_->exhausted = true;
+            return;
+        }
+        space_->copyFromReals(s, d_->samples[d_->si++]);
+    }
+    void sampleUniformNear(ob::State *s, const ob::State *, double) override
+    {
+        sampleUniform(s);
+    }
+    void sampleGaussian(ob::State *s, const ob::State *, double) override
+    {
+        sampleUniform(s);
+    }
+
+private:
+    DrawScript *d_;
+};
+
+class ScriptControlSampler : public oc::ControlSampler
+{
+public:
+    ScriptControlSampler(const oc::ControlSpace *cs, DrawScript *d) : oc::ControlSampler(cs), d_(d)
+    {
+    }
+    void sample(oc::Control *c) override
+    {
+        double *u = c->as<oc::RealVectorControlSpace::ControlType>()->values;
+        if (d_->ci >= d_->controls.size())
+        {
+            d_->exhausted = true;
+            u[0] = u[1] = 0;
+            return;
+        }
+        u[0] = d_->controls[d_->ci][0];
+        u[1] = d_->controls[d_->ci][1];
+        ++d_->ci;
+    }
+    unsigned int sampleStepCount(unsigned int, unsigned int) override
+    {
+        if (d_->ki >= d_->counts.size())
+        {
+            d_->exhausted = true;
+            return 0;
+        }
+        return d_->counts[d_->ki++];
+    }
+
+private:
+    DrawScript *d_;
+};
+
 // ------------------------------------------------------------------------------------------ projection / decomposition
 class XYProjection : public ob::ProjectionEvaluator
 {
@@ -756,6 +828,91 @@ static std::string opRrt(const Toks &t, std::string &playLine)
     return out;
 }
 
+
+// `rrtplay SYS ENV starts … goal … thr inter=<b> draws (G | U <reals>) (C <ctl> | K <n>)* …` — the real control::RRT driven by
+// scripted samplers (goal bias 0: a `G` draw hands the goal state to the scripted state sampler).  Same line as the Lean driver's.
+static std::string opRrtPlay(const Toks &t)
+{
+    size_t i = 1;
+    Problem pb;
+    pb.parse(t, i);
+    unsigned inter = needKV(t, i, "inter");
+    expect(t, i, "draws");
+    DrawScript ds;
+    const Sys &sys = pb.sys;
+    size_t k = 0;
+    bool first = true;
+    while (i < t.size())
+    {
+        if (t[i] == "G")
+        {
+            ++i;
+            ds.samples.push_back(pb.goal);
+        }
+        else if (t[i] == "U")
+        {
+            ++i;
+            ds.samples.push_back(needReals(t, i, sys.nreals()));
+        }
+        else
+            throw vp::ParseError("draw");
+        size_t nc = 0, nk = 0;
+        while (i < t.size() && (t[i] == "C" || t[i] == "K"))
+        {
+            if (t[i++] == "C")
+            {
+                ds.controls.push_back(needReals(t, i, 2));
+                ++nc;
+            }
+            else
+            {
+                unsigned long long n = vp::needN(t, i);
+                if (n > 100000)
+                    throw vp::ParseError("count");
+                ds.counts.push_back((unsigned)n);
+                ++nk;
+            }
+        }
+        if (nc != nk || nc < 1 || (!first && nc != k))
+            throw vp::ParseError("uniform k");
+        k = nc;
+        first = false;
+    }
+    if (k > 50)
+        throw vp::ParseError("k");
+    std::shared_ptr<SysPropagator> prop;
+    auto si = makeSI(sys, prop);
+    si->setStateValidityChecker(std::make_shared<EnvValidity>(si, pb.env));
+    sys.space->setStateSamplerAllocator([&ds](const ob::StateSpace *sp) { return std::make_shared<ScriptStateSampler>(sp, &ds); });
+    sys.cspace->setControlSamplerAllocator(
+        [&ds](const oc::ControlSpace *cs) { return std::make_shared<ScriptControlSampler>(cs, &ds); });
+    unsigned kk = k == 0 ? 1 : (unsigned)k;
+    si->setDirectedControlSamplerAllocator(
+        [kk](const oc::SpaceInformation *s) { return std::make_shared<oc::SimpleDirectedControlSampler>(s, kk); });
+    si->setup();
+    auto pdef = std::make_shared<ob::ProblemDefinition>(si);
+    ob::State *s0 = si->allocState();
+    for (const auto &st0 : pb.starts)
+    {
+        sys.space->copyFromReals(s0, st0);
+        pdef->addStartState(s0);
+    }
+    si->freeState(s0);
+    pdef->setGoal(std::make_shared<PosGoal>(si, pb.goal, pb.thr, nullptr));
+    auto planner = std::make_shared<RRTx>(si);
+    planner->setNearestNeighbors<ompl::NearestNeighborsLinear>();
+    planner->setGoalBias(0.0);
+    planner->setIntermediateStates(inter != 0);
+    planner->setProblemDefinition(pdef);
+    planner->setup();
+    auto cnt = std::make_shared<vp::EvalCounter>();
+    cnt->fireAt = ds.samples.size();
+    ob::PlannerStatus st = planner->solve(vp::evalCountPtc(cnt));
+    if (ds.exhausted)
+        return "script-exhausted";
+    return showSolution(sys, pdef, st, *si) + " | " + planner->dumpTree(sys);
+}
+
 static std::string opPlan(const Toks &t)
 {
     size_t i = 1;
@@ -886,6 +1043,8 @@ int main()
                 std::string out = opRrt(t, play);
                 std::cout << out << "\n" << play << "\n";
             }
+            else if (t[0] == "rrtplay")
+                std::cout << opRrtPlay(t) << "\n";
             else if (t[0] == "plan")
             {
                 planned = true;
